@@ -39,7 +39,7 @@ fn mutate_bytes(r: &mut Rng, s: &str) -> Vec<u8> {
             4 => b.truncate(i),
             5 => {
                 // replace a field by an interesting token
-                let toks: [&str; 14] = ["", " ", "-0", "0", "0.0000000001", "-1", "abc", "1e5", "1,000", "2020-02-30", "9999-12-31", "1-for-0", "0-for-1", "(R)"];
+                let toks: [&str; 19] = ["", " ", "-0", "0", "0.0000000001", "-1", "abc", "1e5", "1,000", "2020-02-30", "9999-12-31", "1-for-0", "0-for-1", "(R)", "€12.50", "£5", "$12.50", "12.50€", "１２"];
                 let t = r.pick(&toks).as_bytes().to_vec();
                 let end = b[i..].iter().position(|c| *c == b',' || *c == b'\n').map(|p| i + p).unwrap_or(b.len());
                 b.splice(i..end, t);
@@ -71,7 +71,25 @@ pub fn run_case(id: &str, r: &mut Rng, out: &mut String) {
     let c = app::gen_case(r);
     let csv = app::txs_to_csv(&c.rows);
     let malformed = r.chance(55);
-    let bytes = if malformed { mutate_bytes(r, &csv) } else { csv.clone().into_bytes() };
+    let bytes = if malformed && r.chance(30) {
+        // structured: an odd token in a numeric cell of one row
+        let toks: [&str; 16] = ["€12.50", "£5", "$12.50", "12.50€", "１２", "1,000", "1e5", "-0", "+5", " 7 ", ".5", "5.", "0x10", "NaN", "inf", "1_000"];
+        let mut lines: Vec<String> = csv.split('\n').map(|l| l.to_string()).collect();
+        if lines.len() > 2 {
+            let li = 1 + r.below((lines.len() - 2) as u64) as usize;
+            let mut cells: Vec<String> = lines[li].split(',').map(|c| c.to_string()).collect();
+            let ci = *r.pick(&[4usize, 5, 6, 8, 10, 11]);
+            if ci < cells.len() {
+                cells[ci] = r.pick(&toks).to_string();
+                lines[li] = cells.join(",");
+            }
+        }
+        lines.join("\n").into_bytes()
+    } else if malformed {
+        mutate_bytes(r, &csv)
+    } else {
+        csv.clone().into_bytes()
+    };
     // DescribedReader::from_string takes a String: feed the bytes the way the CLI would read a file
     let dir = std::env::temp_dir().join(format!("acb_verif_fuzz_{}", std::process::id()));
     let _ = std::fs::create_dir_all(&dir);
